@@ -140,6 +140,16 @@ CLAIMED = {
              "(repr), measures; to_json keys and AttributeError; to_hoomd keys and values against a freshly constructed centred shape.",
         design="§4 C19", technique="Coq proof on a datatype model of the codec + executable dispatch model run against the implementation + round-trip correspondence",
         note="repr, to_json and to_hoomd are decided by correspondence only (partial); known finding spheropolygon-to_hoomd-not-centred (pinned by the suite)."),
+    "C20": dict(
+        text="Codec theorems on token lines (coordinates opaque): parse(write m) = Some m for every well-formed mesh (any number of vertices/faces) for OBJ "
+             "(1-based), OFF, PLY, VTK (counts must match the data, indices in range) and the X3D/HTML coordIndex run structure; the OFF count line as "
+             "actually written ('<V> f<F> <E>') is proved unparseable (known finding, byte-pinned by the control files). Correspondence: the Coq parsers "
+             "are run on the bytes Polyhedron.save wrote (lexed in the harness), and must return the polyhedron's vertex count and face cycles; float tokens "
+             "must equal the coordinates as exact doubles; STL: fan triangulation of every face in order, normals = cross product, positive signed volume; "
+             "X3D/HTML: XML well-formed, points = face corners at full precision; save dispatch / ValueError for unknown types; exporting leaves the whole "
+             "private state unchanged.",
+        design="§4 C20", technique="Coq codec round-trip proofs + Coq parsers run on the implementation's output",
+        note="the lexer (comment/blank handling, int/float/keyword classification) and float(str(x)) == x are trusted harness code; known findings off-face-count-token, polytri thresholds (STL of small Polyhedron)."),
 }
 
 REASON_TODO = "check not built yet (work in progress this round)"
